@@ -93,6 +93,17 @@ def record(family, out, profile="release", timeout=1200, **kw):
     if p.returncode == 7 and os.path.exists(out + ".hang.json"):
         _drop_partial_last_line(out)
         return out          # the watchdog saw a call that did not return: the caller reports it
+    if p.returncode < 0 or p.returncode in (132, 134, 135, 136, 139):
+        # the process was killed by a signal (stack overflow, abort, illegal instruction): safe Rust harness code does not do
+        # that by itself; the events flushed so far are kept and a final ProcessCrash event, which no trace specification
+        # accepts, carries the command that reproduces it
+        _drop_partial_last_line(out)
+        n = sum(1 for _ in open(out))
+        with open(out, "a") as f:
+            f.write(json.dumps({"ev": "ProcessCrash", "family": family, "profile": profile, "returncode": p.returncode, "events_before": n,
+                                "args": {k: str(v) for k, v in kw.items()}, "stderr": p.stdout[-400:]}) + "\n")
+        log("[record] %s died with status %d after %d events: recorded as ProcessCrash" % (family, p.returncode, n))
+        return out
     if p.returncode != 0:
         # the harness catches panics of the code under test; a crash of the harness itself is a tool error
         raise ToolError("harness record %s failed (%d): %s" % (family, p.returncode, p.stdout[-3000:]))
@@ -274,8 +285,9 @@ class LazyLines:
                     ln = ln.rstrip("\n")
                     if not ln.strip():
                         continue
-                    if self.skip and _ev_of(ln) in self.skip:
-                        continue
+                    e = _ev_of(ln)
+                    if (self.skip and e in self.skip) or e in ("ProcessCrash", "UncaughtLibraryPanic"):
+                        continue        # recorder-level events: reported through the rejection path, not part of the coverage data
                     yield ln, json.loads(ln)
 
     def __getitem__(self, sl):
@@ -549,6 +561,24 @@ def _shorten(obj, limit=48):
     return obj
 
 
+def recorder_level_reject(chk, rj):
+    """Rejected events that come from the recorder itself (the process died, the library panicked outside an individually
+    guarded call): reported as violations in a uniform way.  Returns True when the rejection was one of them."""
+    ev = rj["event"]
+    if isinstance(ev, dict) and ev.get("ev") == "ProcessCrash":
+        chk.violation("process crash in %s driver" % ev.get("family"),
+                      "the process exercising the library (%s driver, %s profile) was killed (status %s) after %s events: %s" % (
+                          ev.get("family"), ev.get("profile"), ev.get("returncode"), ev.get("events_before"), str(ev.get("stderr"))[-200:]),
+                      {"crash": ev, "reproduce": "rtcm_conf record %s %s (profile %s)" % (ev.get("family"), " ".join("%s=%s" % kv for kv in (ev.get("args") or {}).items()), ev.get("profile"))})
+        return True
+    if isinstance(ev, dict) and ev.get("ev") == "UncaughtLibraryPanic":
+        # the library panicked in a call the driver had not wrapped individually: still data, not a harness crash
+        chk.violation("library panic " + str(ev.get("panic"))[:120], "the library panicked while the %s driver was exercising it: %s" % (ev.get("family"), ev.get("panic")),
+                      {"session": rj["session"], "rejected_index": rj["index_in_session"], "panic": ev.get("panic")})
+        return True
+    return False
+
+
 def report_rejects(chk, r, sig_of, describe=None, tool_error_if=None):
     """Turn TV rejections into candidate violations (or tool errors when the spec says the
     harness broke its own precondition)."""
@@ -558,10 +588,7 @@ def report_rejects(chk, r, sig_of, describe=None, tool_error_if=None):
             d = json.loads(diag) if isinstance(diag, str) else diag
         except Exception:
             d = {"raw": diag}
-        if isinstance(ev, dict) and ev.get("ev") == "UncaughtLibraryPanic":
-            # the library panicked in a call the driver had not wrapped individually: still data, not a harness crash
-            chk.violation("library panic " + str(ev.get("panic"))[:120], "the library panicked while the %s driver was exercising it: %s" % (ev.get("family"), ev.get("panic")),
-                          {"session": rj["session"], "rejected_index": rj["index_in_session"], "panic": ev.get("panic")})
+        if recorder_level_reject(chk, rj):
             continue
         if tool_error_if and tool_error_if(ev, d):
             raise ToolError("harness precondition broken (not a verdict): %s / %s" % (json.dumps(_shorten(ev))[:1500], d))
